@@ -4,7 +4,7 @@ from mon.monitor.streams import MonitoredStream, check_append_only
 from mon.oracle import jsoncanon, scanner
 from mon.oracle.serializer import serialize
 from mon.props import common
-from mon.props.c01 import sweep_cases, sweep_doc
+from mon.props.c01 import sweep_cases, sweep_doc, special_docs
 
 LEVEL = 'exploration'
 RULE = ('same recipe generator and systematic sweep as C01, plus JSON stress '
@@ -131,6 +131,9 @@ def stress_doc(rng):
 def run(ctx):
     obs = ctx.obs
     rng = ctx.rng
+    for i, d in enumerate(special_docs()):
+        if ctx.mine(i):
+            check_case(d, obs, 'special_sizes')
     sw = sweep_cases()
     stride = ctx.pick(3, 1)
     for i, (codec, indent, le, t) in enumerate(sw):
